@@ -79,6 +79,15 @@ Theorem C06_flux_solver spec (m : Mixture ROps) perm perm' (a : SolveArgs ROps) 
   solve_gen ROps spec false (swap_mixture m) perm' (swap_sargs a) = swap_res (solve_gen ROps spec false m perm a).
 Proof. exact (solve_swap spec m perm perm' a P1 P2). Qed.
 
+(* in vacuum mode forward permeation follows from positive feed partial pressures: no hypothesis on the iteration is left *)
+Theorem C06_flux_solver_vacuum spec (m : Mixture ROps) perm perm' (a : SolveArgs ROps) P1 P2 :
+  sa_P1 a = Some P1 -> sa_P2 a = Some P2 -> sa_Tp a = None -> sa_pp a = None ->
+  sym_model spec (sa_ct a) -> vp_defined m (sa_T a) ->
+  0 < mw (c1 m) -> 0 < mw (c2 m) -> interior (sa_x a) -> 0 < pval P1 -> 0 < pval P2 ->
+  (forall pf, partial_pressures_gen ROps spec (sa_T a) m (sa_x a) (sa_ct a) = Ok pf -> 0 < fst pf /\ 0 < snd pf) ->
+  solve_gen ROps spec false (swap_mixture m) perm' (swap_sargs a) = swap_res (solve_gen ROps spec false m perm a).
+Proof. exact (solve_swap_vacuum spec m perm perm' a P1 P2). Qed.
+
 (* a DiffusionCurve built from (positive) fluxes, and the ideal diffusion curve of a membrane: exchanged fluxes and
    permeances at the mirrored compositions, in every permeate mode *)
 Theorem C06_curve_from_fluxes (PP PP' : PPfun ROps) (m : Mixture ROps) T xs Js Tp pp :
